@@ -34,7 +34,7 @@ def identical(w, fs, S, x):
                           z3.Implies(z3.And(0 <= xx, xx < _z(S)), fs.byte_term(RESOLVED, xx) == C(0, xx))))
 
 
-def h_dest(ctx, N, mode, ck, grid=False, reject=False, M=3):
+def h_dest(ctx, N, mode, ck, grid=False, reject=False, M=3, prefix="none"):
     cktype = CK[ck]
     w = World(ctx, injective=ck in ("crc32", "crc32c"))
     x = ctx.int("x", 0, hdst.OMAX + hdst.LMAX)
@@ -67,8 +67,9 @@ def h_dest(ctx, N, mode, ck, grid=False, reject=False, M=3):
         alphabet = ["MD", "FDG", "EOF", "TICK"]
     else:
         alphabet = ["MD", "FDX", "EOF", "TICK"]
-    for i in range(N):
-        o = sc.step(alphabet)
+    pre = sc.run_prefix(prefix)
+    for i in range(len(pre) + N):
+        o = pre[i] if i < len(pre) else sc.step(alphabet)
         hdst.end_if_other_property(ctx, o)
         for e in o.ind:
             if e[0] == "finished" and is_success(e[2], e[3], e[4]):
@@ -129,6 +130,12 @@ def plan(tier):
                           obligations=["success_indication", "write_rejected"]))
         specs.append(Spec(f"dest/ack/{ck}/write-rejection/N={na - 1}", "vf.harness.c01:h_dest",
                           {"N": na - 1, "mode": "ack", "ck": ck, "reject": True}, twin_share=0.02))
+    # EOF first (Metadata late), then open events with write rejection: late steps of the deferred procedure
+    specs.append(Spec(f"dest/ack/crc32/after-eof_first/write-rejection/N={3 if q else 4}", "vf.harness.c01:h_dest",
+                      {"N": 3 if q else 4, "mode": "ack", "ck": "crc32", "reject": True, "prefix": "eof_first"},
+                      twin_share=0.02))
+    specs.append(Spec(f"dest/ack/crc32/after-eof_missing/N={3 if q else 4}", "vf.harness.c01:h_dest",
+                      {"N": 3 if q else 4, "mode": "ack", "ck": "crc32", "prefix": "eof_missing"}, twin_share=0.02))
     for ck in ("null", "modular"):
         specs.append(Spec(f"dest/ack/{ck}/grid/N={na + 1}", "vf.harness.c01:h_dest",
                           {"N": na + 1, "mode": "ack", "ck": ck, "grid": True, "M": 2 if q else 3},
@@ -142,7 +149,7 @@ def plan(tier):
 
 
 BOUNDS = {
-    "quick": "receiver: every sequence of N=4 events over {Metadata, File Data with symbolic offset/length and symbolically good-or-corrupted payload (corruption index symbolic), EOF(no error), tick}, acknowledged (immediate/deferred NAK) and unacknowledged, closure on/off, CRC-32; with symbolic write rejection (PermissionError) per filestore write (N=4 unacknowledged, N=3 acknowledged); NULL and MODULAR checksum: acknowledged, grid-segmented file of at most 2 segments, loss/duplication/reordering only, N=5. Sender: six canonical prefixes + every sequence of T=2 events",
+    "quick": "receiver: every sequence of N=4 events over {Metadata, File Data with symbolic offset/length and symbolically good-or-corrupted payload (corruption index symbolic), EOF(no error), tick}, acknowledged (immediate/deferred NAK) and unacknowledged, closure on/off, CRC-32; with symbolic write rejection (PermissionError) per filestore write (N=4 unacknowledged, N=3 acknowledged, and N=3 after the prefix 'EOF first'); N=3 after the prefix 'Metadata, EOF with all data missing'; NULL and MODULAR checksum: acknowledged, grid-segmented file of at most 2 segments, loss/duplication/reordering only, N=5. Sender: six canonical prefixes + every sequence of T=2 events",
     "thorough": "N=5 everywhere (N=6 for NULL/MODULAR with 3 segments), CRC-32C as well, sender T=3",
 }
 OUTSIDE = ("delivered sequences longer than N (hence files that need more than N-2 File Data PDUs at the receiver); corruption of anything but File Data payload; "
